@@ -136,10 +136,17 @@ def graph_program(rnd):
     s = Solver()
     n = rnd.randrange(1, 5)
     edges = [(u, v) for u in range(n) for v in range(u + 1, n) if rnd.random() < 0.6]
+    k = rnd.randrange(3)
+    if edges and rnd.random() < 0.5:
+        # multigraphs: a parallel edge (in either orientation); for the vertex constraint also a self-loop
+        u, v = rnd.choice(edges)
+        edges.append((v, u) if rnd.random() < 0.5 else (u, v))
+        if k == 0 and rnd.random() < 0.5:
+            w = rnd.randrange(n)
+            edges.append((w, w))
     g = G.Graph(n)
     for (u, v) in edges:
         g.add_edge(u, v)
-    k = rnd.randrange(3)
     if k == 0:
         x = s.bool_array(n)
         G.active_vertices_connected(s, x, g, use_graph_primitive=True)
